@@ -24,6 +24,7 @@ RULES = {
     "C08.R2": lambda ctx: bldrules.flatten_translation(ctx, "C08.R2"),
     "C08.R3": lambda ctx: bldrules.flatten_translation(ctx, "C08.R3"),
     "C08.R3b": lambda ctx: bldrules.contents_predicates(ctx, "C08.R3b"),
+    "C08.R4": lambda ctx: bldrules.builder_calls(ctx, "C08.R4"),
     "C08.R5": lambda ctx: bldrules.sections_sorted(ctx, "C08.R5"),
     "C08.R0": lambda ctx: __import__("rules.foundations", fromlist=["x"]).accessors(ctx, "C08.R0", None),
     "C08.R6": r6,
